@@ -200,6 +200,83 @@ def file_digest(path):
         return hashlib.sha256(f.read()).hexdigest()[:16]
 
 
+class RefServer(object):
+    """The reference model runs in its own forked process.
+
+    It is forked from the simulator right after the world has been materialised and before the live
+    dataset exists, so it starts from pristine interpreter state, lives under TZ=UTC with fault
+    injection off, and serves nothing but references of this one world: each query builds a fresh
+    dataset from freshly read inputs, issues the single request and returns status + digests.  Process
+    level state that the live history (or another tenant of the simulated process) leaves behind in
+    module/class attributes therefore cannot contaminate the reference.
+    """
+
+    def __init__(self, sim):
+        import pickle
+        self._pickle = pickle
+        pr, cw = os.pipe()      # child -> parent
+        cr, pw = os.pipe()      # parent -> child
+        pid = os.fork()
+        if pid == 0:
+            code = 0
+            try:
+                os.close(pr)
+                os.close(pw)
+                sim.cf.active = False
+                sim.cf.armed = []
+                fin = os.fdopen(cr, "rb")
+                fout = os.fdopen(cw, "wb")
+                while True:
+                    try:
+                        msg = pickle.load(fin)
+                    except EOFError:
+                        break
+                    if msg is None:
+                        break
+                    try:
+                        out = sim._reference_local(*msg)
+                    except BaseException as e:       # noqa
+                        out = {"status": "harness:" + repr(e), "dig": []}
+                    pickle.dump(out, fout, protocol=pickle.HIGHEST_PROTOCOL)
+                    fout.flush()
+            except BaseException:
+                code = 3
+            finally:
+                os._exit(code)
+        os.close(cr)
+        os.close(cw)
+        self.pid = pid
+        self.fin = os.fdopen(pr, "rb")
+        self.fout = os.fdopen(pw, "wb")
+
+    def query(self, req, index, pinned, pin_seed, record_arrays):
+        self._pickle.dump((req, index, pinned, pin_seed, record_arrays), self.fout, protocol=self._pickle.HIGHEST_PROTOCOL)
+        self.fout.flush()
+        try:
+            out = self._pickle.load(self.fin)
+        except EOFError:
+            raise RuntimeError("reference server died")
+        if out["status"].startswith("harness:"):
+            raise RuntimeError("reference server: " + out["status"])
+        return out
+
+    def close(self):
+        try:
+            self._pickle.dump(None, self.fout)
+            self.fout.flush()
+        except Exception:
+            pass
+        for f in (self.fout, self.fin):
+            try:
+                f.close()
+            except Exception:
+                pass
+        try:
+            os.waitpid(self.pid, 0)
+        except Exception:
+            pass
+
+
 class DataSim(object):
     def __init__(self, spec, workdir, oracles=(), want_ref=True, record_arrays=False):
         self.spec = spec
@@ -226,6 +303,7 @@ class DataSim(object):
         self.has_clim = bool(self.world.get("clim"))
         self.returned = []      # (step, array object, digest) of every array ever returned
         self.ref_env_utc = spec.get("ref_utc", False)
+        self.refserver = None
 
     # ------------------------------------------------------------------ helpers
     def fresh(self):
@@ -233,35 +311,38 @@ class DataSim(object):
         return ds
 
     def reference(self, req, index):
-        """Same request as the only request on a freshly built dataset (the executable reference model)."""
+        """Same request as the only request on a freshly built dataset (the executable reference model),
+        evaluated by this tenant's reference server process."""
         key = json.dumps([req["fields"], bool(req.get("single")), req["input"], req["axis"], index], sort_keys=True)
         if key in self._refmemo:
             self.stats["ref_memo_hit"] += 1
             return self._refmemo[key]
+        if self.refserver is not None:
+            out = self.refserver.query(req, index, self.pinned, self.pin_seed, self.record_arrays)
+        else:
+            out = self._reference_local(req, index, self.pinned, self.pin_seed, self.record_arrays)
+        self.stats["ref_evals"] += 1
+        self._refmemo[key] = out
+        return out
+
+    def _reference_local(self, req, index, pinned, pin_seed, record_arrays):
         self.cf.active = False
-        zone = self.env.zone
-        if self.ref_env_utc and zone != "UTC":
-            self.env.set_zone("UTC", count=False)
         rng_state = np.random.get_state()
         try:
             ds = self.fresh()
             if ds.status != "ok":
                 out = {"status": "construct:" + ds.status, "dig": []}
             else:
-                if self.pinned:
-                    np.random.seed(self.pin_seed)
+                if pinned:
+                    np.random.seed(pin_seed)
                 status, arrays, _ = do_request(ds.data, req, index)
                 out = {"status": status, "dig": [adigest(a) for a in arrays]}
-                if self.record_arrays:
+                if record_arrays:
                     out["arrays"] = [np.array(a, copy=True) for a in arrays]
             ds.close()
         finally:
             np.random.set_state(rng_state)
-            if self.ref_env_utc and zone != "UTC":
-                self.env.set_zone(zone, count=False)
             self.cf.active = True
-        self.stats["ref_evals"] += 1
-        self._refmemo[key] = out
         return out
 
     def resolve_index(self, req):
@@ -313,6 +394,9 @@ class DataSim(object):
         self.names = W.materialise(self.world, ".")
         self.file_digests = {n: file_digest(n) for n in self.names}
         self._sizes = {}
+        if self.want_ref:
+            # forked now: pristine state, TZ=UTC, before any environment operation or live request
+            self.refserver = RefServer(self)
         # environment schedule entries that precede loading
         for op in self.spec.get("pre_ops", []):
             self.apply_env(op)
@@ -341,6 +425,9 @@ class DataSim(object):
                 o.finish(self)
 
     def release(self):
+        if self.refserver is not None:
+            self.refserver.close()
+            self.refserver = None
         for ds in self._open:
             ds.close()
         self._open = []
@@ -490,6 +577,9 @@ def run_multi(sims, schedule):
         s.env = env
         s.cf = cf
     np_state = np.random.get_state()
+    # the global NumPy RNG starts every run in a state that is a function of the run's seed
+    from . import prng as _prng
+    np.random.seed(_prng.derive_int(sims[0].spec.get("seed"), sims[0].spec.get("run"), "np-global") % (2 ** 32))
     env.install()
     cf.install()
     try:
